@@ -164,6 +164,19 @@ func (c05) Case(c *core.Ctx) {
 		{"MapSeq.Xml", func() ([]byte, error) { return ms.Xml() }},
 		{"MapSeq.XmlIndent", func() ([]byte, error) { return ms.XmlIndent("", indent) }},
 	}
+	// further root forms of Map.Xml / XmlIndent (well-formedness clauses only): single key holding a list with a
+	// non-map member (wrapped under the default root), multi-key Map, explicit root tag
+	mList := mxj.Map{"r": []interface{}{ss[0], map[string]interface{}{"e": ss[1]}, ss[2]}}
+	mMulti := mxj.Map{"a": ss[0], "b": map[string]interface{}{"-c": ss[1], "#text": ss[2]}}
+	shapeEncs := []encT{
+		{"Map.Xml(single-key list)", func() ([]byte, error) { return mList.Xml() }},
+		{"Map.XmlIndent(single-key list)", func() ([]byte, error) { return mList.XmlIndent("", indent) }},
+		{"Map.Xml(multi-key)", func() ([]byte, error) { return mMulti.Xml() }},
+		{"Map.XmlIndent(multi-key)", func() ([]byte, error) { return mMulti.XmlIndent("", indent) }},
+		{"Map.Xml(root tag)", func() ([]byte, error) { return m.Xml("top") }},
+		{"MapSeq.Xml(root tag)", func() ([]byte, error) { return ms.Xml("top") }},
+		{"AnyXml(list)", func() ([]byte, error) { return mxj.AnyXml([]interface{}{ss[0], map[string]interface{}{"e": ss[1]}}) }},
+	}
 	wantVals := map[string]string{"r/@a": ss[0], "r/e": trim(ss[1]), "r/m": trim(ss[2]), "r/m/@b": ss[3], "r/x": trim(ss[4])}
 	cmp := func(vals map[string]string) string {
 		for k, w := range wantVals {
@@ -204,6 +217,14 @@ func (c05) Case(c *core.Ctx) {
 				continue
 			}
 			c.Add("clause1:values-read-back", 5)
+		}
+		for _, e := range shapeEncs {
+			out, err := e.f()
+			if err != nil {
+				c.Violate("c05-escaped-encode-error", e.name+" failed with value escaping enabled", core.D{"clause": 1, "encoder": e.name, "strings": ss[:], "err": err.Error()})
+			} else if terr := xt.StdAccepts(out); terr != nil {
+				c.Violate("c05-escaped-illformed", e.name+" output is not well formed although value escaping is enabled", core.D{"clause": 1, "encoder": e.name, "strings": ss[:], "output": string(out), "err": terr.Error()})
+			}
 		}
 	}
 	mxj.XmlCheckIsValid(false)
@@ -280,7 +301,7 @@ func (c05) Case(c *core.Ctx) {
 		mxj.CustomDecoder = &xml.Decoder{Strict: false}
 		c.Count("ambient:custom-decoder-nonstrict")
 	}
-	for _, e := range encs {
+	for _, e := range append(append([]encT{}, encs...), shapeEncs[:6]...) {
 		out, err := e.f()
 		if err != nil {
 			c.Count("clause3:error-returned")
